@@ -425,7 +425,7 @@ def run_job(job):
             tally(v)
             res['distinct'].add(h64(('site-e2e', name)))
             if v:
-                record(res, seen, 'site-e2e/' + name.split(':')[0], name, v,
+                record(res, seen, 'site-e2e/' + ':'.join(name.split(':')[:2 if name.startswith('page') else 1]), name, v,
                        dict(kind='site-e2e', name=name))
         res['samples'].append(dict(surface='whole crawls with one hostile document',
                                    cases=job['names']))
